@@ -59,6 +59,7 @@ double complex _vnacal_rfi(const double *xp, double complex *yp,
     int cur;
     int segment = *ip_segment;
     double complex y;
+    double shift = 0.0;
     double complex c[m], d[m];
 
     assert(n >= 1);
@@ -138,11 +139,37 @@ double complex _vnacal_rfi(const double *xp, double complex *yp,
     cur = nearest - base;
     assert(base >= 0 && base <= n - m);
     assert(cur >= 0 && cur < m);
-    for (int i = 0; i < m; ++i) {
-	c[i] = yp[base + i];
-	d[i] = yp[base + i] + EPS;
+
+    /*
+     * The recurrence divides by differences built from the function
+     * values; a sample that is zero, or negligible against the others,
+     * makes it degenerate (a line through zero came back as zero).
+     * A rational function plus a constant is a rational function of
+     * the same degrees, so in that case interpolate y + shift and
+     * take the shift off the result.
+     */
+    {
+	double ymax = 0.0, ymin = INFINITY;
+
+	for (int i = 0; i < m; ++i) {
+	    double a = cabs(yp[base + i]);
+
+	    if (a > ymax) {
+		ymax = a;
+	    }
+	    if (a < ymin) {
+		ymin = a;
+	    }
+	}
+	if (ymin < 1.0e-6 * ymax) {
+	    shift = 2.0 * ymax;
+	}
     }
-    y = yp[base + cur--];
+    for (int i = 0; i < m; ++i) {
+	c[i] = yp[base + i] + shift;
+	d[i] = yp[base + i] + shift + EPS;
+    }
+    y = yp[base + cur--] + shift;
     for (int i = 0; i < m - 1; ++i) {
 	int j;
 
@@ -168,5 +195,5 @@ double complex _vnacal_rfi(const double *xp, double complex *yp,
     }
 done:
     *ip_segment = segment;
-    return y;
+    return y - shift;
 }
